@@ -153,13 +153,6 @@ Theorem C05_pending_package_read_refuted :        (* F3 *)
 Proof. exact pending_package_read_refuted. Qed.
 Print Assumptions C05_pending_package_read_refuted.
 
-Theorem C05_extend_ignored_refuted :              (* F6 *)
-  exists top ms order,
-    is_ok (py_import ms order []) = true /\
-    agreeb top (loaded_table (griffe_load top ms)) (py_table (py_import ms order [])) = false /\
-    agreeb top (griffe_sched top ms order) (py_table (py_import ms order [])) = false.
-Proof. exact extend_ignored_refuted. Qed.
-Print Assumptions C05_extend_ignored_refuted.
 
 (* F7: the model agrees with CPython when every alias is resolved after the last wildcard expansion, but an alias member of wf7.c was
    replaced and wf7.d.f points at it: an earlier resolution presents the stale target (what the implementation does). *)
@@ -221,10 +214,10 @@ Print Assumptions C05_exports_pending_read_refuted.
 (* ---- the composition over a dependency order ----------------------------------------------------------------------------------- *)
 (* For every program (any number of modules and sub-packages, any statements of the grammar, any depth of re-export chains), if
    - wf_prog holds (decidable, Model/C05_wf.v): the order has no repetition and every module in it is reached from the top package
-     through declared submodules; per module: one statement per line (finding F4), no `__all__.extend` (F6), bound names are plain
-     identifiers, a name of a submodule of the module is bound only by `from <the module> import <submodule>`, a module imports
+     through declared submodules; per module: one statement per line (finding F4), bound names are plain identifiers, a name of a submodule of the module is bound only by `from <the module> import <submodule>`, a module imports
      from itself only its submodules, and every source of an assembled __all__ is bound exactly once, by an import standing before
-     the __all__ statement (F12), `x.__all__` through a module, a bare name through `from m import __all__ as name` (F11);
+     the __all__ statement (F12), `x.__all__` through a module, a bare name through a from-import (of `__all__` itself or of a name that
+     another module bound to such a list);
    - CPython's import statement semantics (py_import) executes the modules in that order without error (so every import reads a
      module that ran before: the order is a dependency order, the import graph is acyclic);
    - wf_run holds on that run (decidable): a wildcard import never rebinds the name of a submodule of the importing package to
@@ -262,15 +255,6 @@ Theorem C05_resolution_stable :
 Proof. exact Res_stable. Qed.
 Print Assumptions C05_resolution_stable.
 
-Theorem C05_renamed_all_source_refuted :          (* F11 *)
-  exists top ms order,
-    is_ok (py_import ms order []) = true /\
-    agreeb top (loaded_table (griffe_load top ms)) (py_table (py_import ms order [])) = false /\
-    agreeb top (griffe_sched top ms order) (py_table (py_import ms order [])) = false /\
-    wf_prog top ms order = false /\
-    (exists m, In m ms /\ renamed_all_source (ms_body m) = true).
-Proof. exact renamed_all_source_refuted. Qed.
-Print Assumptions C05_renamed_all_source_refuted.
 
 Theorem C05_flow_insensitive_source_refuted :     (* F12: a wildcard import rebinds the source between its import and the __all__ statement *)
   exists top ms order,
